@@ -90,3 +90,45 @@ contract("ArgumentMapping.to_call_info", source=M + "ArgumentMapping.to_call_inf
                                           "       (pname(definition_info, i), val(select(self.param_dict, pname(definition_info, i)))) in keywords))"]}},
          note="what is emitted positionally is exactly the bound prefix; what is emitted by keyword is a parameter with its own value (so the re-bound call gives "
               "every parameter the value the mapping holds); surplus positionals after an incomplete prefix are the known finding #23")
+
+# ---- CPython cross-check of the binding contracts on real DefinitionInfo / CallInfo objects ------------------------------------------------
+def _xc_map_domain(tier, seed):
+    import itertools
+    params = [[], ["a"], ["a", "b"], ["a", "b", "c"]]
+    for ps in params:
+        for npos in range(0, 5):
+            args = ["v%d" % i for i in range(npos)]
+            free = [p for p in ps[min(npos, len(ps)):]] + ["z"]
+            for r in range(0, 3):
+                for kws in itertools.permutations(free, r):
+                    yield (ps, args, [(k, "k_" + k) for k in kws])
+
+
+def _xc_map_build(case):
+    from rope.refactor import functionutils as fu
+    ps, args, kws = case
+    d = fu.DefinitionInfo("f", False, [(p, None) for p in ps], None, None)
+    c = fu.CallInfo("f", list(args), list(kws), None, None, False, False)
+    m = object.__new__(fu.ArgumentMapping)
+    return {"self": m, "definition_info": d, "call_info": c, "__dom_Str__": ["a", "b", "c", "z", "q"]}
+
+
+def _xc_tci_build(case):
+    from rope.refactor import functionutils as fu
+    ps, args, kws = case
+    d = fu.DefinitionInfo("f", False, [(p, None) for p in ps], None, None)
+    c = fu.CallInfo("f", list(args), list(kws), None, None, False, False)
+    m = fu.ArgumentMapping(d, c)
+    k = 0
+    while k < len(ps) and ps[k] in m.param_dict:
+        k += 1
+    return {"self": m, "definition_info": d, "k": k, "__dom_Str__": ["a", "b", "c", "z", "q"]}
+
+
+REG.records["DefinitionInfo"].pyclass = "rope.refactor.functionutils:DefinitionInfo"
+REG.records["CallInfo"].pyclass = "rope.refactor.functionutils:CallInfo"
+REG.records["ArgumentMapping"].pyclass = "rope.refactor.functionutils:ArgumentMapping"
+bounded_check(name="c06-mapping-native", props=["C06", "C04"], contract="ArgumentMapping.__init__", build=_xc_map_build, domain=_xc_map_domain, exhaustive=True,
+              label="CPython cross-check: ArgumentMapping.__init__'s contract on real objects: 0-3 parameters x 0-4 positionals x <= 2 keywords (free parameters and a stranger)")
+bounded_check(name="c06-to-call-info-native", props=["C06", "C04"], contract="ArgumentMapping.to_call_info", build=_xc_tci_build, domain=_xc_map_domain, exhaustive=True,
+              label="CPython cross-check: to_call_info's contract on the mappings of the same domain (k = the bound prefix, computed natively)")
